@@ -36,7 +36,7 @@ ASSUMPTIONS = [
     'called: the validator caches signatures by callable; reported, not generated)',
 ]
 SHARDS = {'quick': 4, 'thorough': 16}
-TIMEOUT = {'quick': 400, 'thorough': 2400}
+TIMEOUT = {'quick': 900, 'thorough': 3600}
 ANCHORS = [
     ('pjrpc/server/dispatcher.py', 'MethodRegistry.add'), ('pjrpc/server/dispatcher.py', 'MethodRegistry.add_methods'),
     ('pjrpc/server/dispatcher.py', 'MethodRegistry.view'), ('pjrpc/server/dispatcher.py', 'MethodRegistry.merge'),
